@@ -186,6 +186,9 @@ def h_node(form, k):
             node = 'text'
         else:
             raise ValueError(form)
+        import copy
+        # nodes without abstract children are plain Python values: an independent copy taken BEFORE the call is the reference value
+        pristine = copy.deepcopy(node) if not kids else None
         try:
             r = e.call(ExecutionContext.__dict__['resolve_global_constants'], [ctx, node])
         except RaiseEx as ex:
@@ -198,8 +201,12 @@ def h_node(form, k):
         elif form == 'seq':
             ok = same_exp(r, kids)
         else:
-            ok = z3.BoolVal(bool(r == node and (r is node or form in ('prim',))))
+            # "unchanged" is about the VALUE (the property's observation point is the returned expression): whether the very same object
+            # or an equal new one comes back is not part of it; that the argument itself is left alone is the frame clause below
+            ok = z3.BoolVal(bool(r == pristine))
         e.check(f'{tag}::ensures.children_replaced_by_their_expansion,everything_else_unchanged', ok)
+        if pristine is not None:
+            e.check(f'{tag}::frame.input_not_modified', z3.BoolVal(bool(node == pristine)))
         if form in ('prim', 'seq') and k:
             e.check(f'{tag}::frame.input_not_modified', z3.BoolVal((node['args'] if form == 'prim' else node) == kids or all(a is b for a, b in zip(node if form == 'seq' else node['args'], kids))))
     return h
